@@ -136,13 +136,26 @@ func checkC20(w *World, r *Report) {
 	// ---- R20.3 / R20.4 / R20.5 (SSA)
 	_, sp := w.ssa()
 	cacheG := sp.Var("attributeCache")
+	cacheT := deref(cacheG.Type())
 	isCacheMap := func(v ssa.Value) bool {
 		u, ok := v.(*ssa.UnOp)
 		if !ok {
 			return false
 		}
 		fa, ok := u.X.(*ssa.FieldAddr)
-		return ok && fa.X == ssa.Value(cacheG)
+		if !ok {
+			return false
+		}
+		if fa.X == ssa.Value(cacheG) {
+			return true
+		}
+		// through the receiver of a method of the cache's (named) type
+		if _, isNamedT := cacheT.(*types.Named); isNamedT && types.Identical(deref(fa.X.Type()), cacheT) {
+			if _, isMap := deref(fa.Type()).Underlying().(*types.Map); isMap {
+				return true
+			}
+		}
+		return false
 	}
 	nWrites := 0
 	for _, fn := range w.pkgFuncs() {
